@@ -104,6 +104,8 @@ def data_session(seed, n_steps=120, faults=True, with_close=False, with_partial=
     s.op("seqinit 1 %d %d" % (b_out, a_out))
     s.op("seqinit 2 %d %d" % (a_out, b_out))
     s.note("peers 1 2")
+    if not faults and not with_close and not with_invalid:
+        s.note("cleanlink")    # nothing is lost, duplicated or reordered and no channel is closed: no bunch can be refused, so no packet may be NAKed
     p_drop = (rng.choice([0, 0.05, 0.15, 0.3]) if not tiny else rng.choice([0.3, 0.45])) if faults else 0
     p_dup = rng.choice([0, 0.05, 0.15]) if faults else 0
     p_reo = rng.choice([0, 0.1, 0.25]) if faults else 0
